@@ -47,6 +47,8 @@ where
     let mut inter = inter;
     if inter.x == se_l.point.x && inter.y < se_l.point.y {
         inter.x = inter.x.nextafter(true);
+        #[cfg(feature = "verif-hooks")]
+        crate::verif_hooks::path(5);
     }
 
     let r = SweepEvent::new_rc(
@@ -72,6 +74,8 @@ where
     if !l.is_before(&se_r) {
         se_r.set_left(true);
         l.set_left(false);
+        #[cfg(feature = "verif-hooks")]
+        crate::verif_hooks::path(6);
     }
 
     se_l.set_other_event(&r);
